@@ -1,0 +1,86 @@
+//go:build verif
+// +build verif
+
+package raft
+
+import "time"
+
+// Verification hooks, instrumented build (build tag "verif"). Each hook
+// dispatches to a function variable that a verification harness may set;
+// unset hooks do nothing, so a build with the tag but without a harness
+// behaves like the normal build.
+
+var verifHooks struct {
+	idle         func(r *Raft)
+	fsm          func(fsm *stateMachine)
+	timer        func(t *safeTimer, d time.Duration) time.Duration
+	replTakeover func(r *replication, req *appendReq) bool
+	replEvent    func(r *replication, name string, a, b uint64)
+	spawn        func(r *Raft, kind string)
+	done         func(r *Raft, kind string)
+	point        func(owner interface{}, name string)
+	pointTask    func(owner interface{}, name string, t *task)
+	reply        func(t *task, result interface{})
+}
+
+func verifIdle(r *Raft) {
+	if h := verifHooks.idle; h != nil {
+		h(r)
+	}
+}
+
+func verifFSM(fsm *stateMachine) {
+	if h := verifHooks.fsm; h != nil {
+		h(fsm)
+	}
+}
+
+func verifTimer(t *safeTimer, d time.Duration) time.Duration {
+	if h := verifHooks.timer; h != nil {
+		return h(t, d)
+	}
+	return d
+}
+
+func verifReplTakeover(r *replication, req *appendReq) bool {
+	if h := verifHooks.replTakeover; h != nil {
+		return h(r, req)
+	}
+	return false
+}
+
+func verifReplEvent(r *replication, name string, a, b uint64) {
+	if h := verifHooks.replEvent; h != nil {
+		h(r, name, a, b)
+	}
+}
+
+func verifSpawn(r *Raft, kind string) {
+	if h := verifHooks.spawn; h != nil {
+		h(r, kind)
+	}
+}
+
+func verifDone(r *Raft, kind string) {
+	if h := verifHooks.done; h != nil {
+		h(r, kind)
+	}
+}
+
+func verifPoint(owner interface{}, name string) {
+	if h := verifHooks.point; h != nil {
+		h(owner, name)
+	}
+}
+
+func verifPointTask(owner interface{}, name string, t *task) {
+	if h := verifHooks.pointTask; h != nil {
+		h(owner, name, t)
+	}
+}
+
+func verifReply(t *task, result interface{}) {
+	if h := verifHooks.reply; h != nil {
+		h(t, result)
+	}
+}
